@@ -3,7 +3,7 @@ import re
 CONFIG = dict(
     bin="c11",
     drv="drv_c11",
-    lean_modules=["MahfModel.Props.C11", "MahfModel.Props.C11Range"],
+    lean_modules=["MahfModel.Props.C11", "MahfModel.Props.C11Range", "MahfModel.Props.C11Pairs"],
     namespaces=["MahfModel.Props.C11"],
     shrink_lists=["pop", "objs"],
     level="proof",
@@ -41,6 +41,16 @@ CONFIG = dict(
           "corners the statement leaves open: sampling from an empty population, an empty tournament, all weights zero). "
           "(9b) a second entry point: the operator built with `from_params` and `Selection::select` called directly on the slice "
           "(sites `<Op>::select`), on stream 9 and on the ordinary grids. "
+          "(10) individuals as (solution, objective) PAIRS: populations of 1..16 members that share a solution (tag) and differ in the objective "
+          "(one solution evaluated size times; two solutions; every solution evaluated twice with noise), members that share the objective but "
+          "not the solution, identical duplicates and mixtures — every operator (the three DE selections get a third of the cases), through both "
+          "entry points (sites `<Op>@shared`, 2400 quick / 14000 thorough); every witness position is recovered from exact copies (tag AND objective bits), "
+          "positions of identical members are used at most once; "
+          "(11) selection executed on a State that ALSO holds other best / memory states — BestIndividual (filled through `update`), ElitistArchive "
+          "(filled by the real ElitistArchiveUpdate component), PSO BestParticles / BestParticle — whose individuals are not members of the current "
+          "population (unknown tag; the tag of a member with another objective; objective better / worse / equal; a copy of a member of the population "
+          "below) or are members that are not the best: sites `<Op>@states`, 1500 quick / 9000 thorough, two thirds on DEBest / DECurrentToBest / the "
+          "fitness-based operators; every second case is repeated through the direct `Selection::select` entry point on the same population and seed. "
           "A case is non-trivial if it is not in the malformed stream and its population / objective list has "
           "at least 2 members; distinct = distinct input string."),
     nontrivial=lambda inp: "malformed" not in inp and (inp.count("(pop (") >= 1 and inp.split("(pop", 2)[1].count("(") >= 2
@@ -52,6 +62,8 @@ CONFIG = dict(
         "Vec/iterator primitives (iter, flat_map, filter, repeat/take, min_by_key = first minimum (tournament rounds; for the DE 'best' "
         "any minimum is accepted), itertools sorted_by_key = stable, group_by on consecutive equal keys) represented by their list semantics",
         "population stack = plain list (refinement of Populations proved in C04)",
+        "a solution is represented by its tag (u64 encoding of the harness' TagProblem): `Individual: PartialEq` = same tag and same objective; "
+        "encodings whose `PartialEq` is not an equivalence (f64 vectors holding NaN) are not generated",
         "Lean `Float` = IEEE binary64 with the same +,-,*,/,floor as Rust f64 (used by the compiled driver only)",
         "f64 without NaN under `<` / `<=` (SingleObjective: Ord through partial_cmp) is a total preorder — the carrier assumption of Props/C11Range.lean"],
     assumptions=["objective values are never NaN (SingleObjective::try_from, C09)",
@@ -93,8 +105,24 @@ CONFIG.update(
                 "sus_copies_proportional, one boundary point on either side; for All and IWO the multiset of copies, not their order), and "
                 "a 5-sigma frequency test for selection pressure. O judges every operator on the whole range of objective values "
                 "(-f64::MAX..f64::MAX, +inf, signed zeros, subnormals; all-+inf and all-equal populations included) through both entry points "
-                "(`execute` and a direct `Selection::select`), except RouletteWheel / SUS / IWO where their weight arithmetic can overflow or underflow."),
-    level_note=("Trusted: Lean kernel; contracts of rand's sampling primitives; list semantics of iterator adaptors; harness + "
+                "(`execute` and a direct `Selection::select`), except RouletteWheel / SUS / IWO where their weight arithmetic can overflow or underflow. "
+                "Props/C11Pairs.lean: individuals are (solution, objective) pairs — the comparison the code uses is equality of the pair "
+                "(same_individual_iff_pair); the pool of 'other' individuals of DECurrentToBest has population size minus the number of identical copies "
+                "of the member, a member sharing only the solution or only the objective stays in it (de_current_to_best_pool_counts_pairs); on ANY "
+                "evaluated population DECurrentToBest errs exactly if it is empty or some member has fewer than 2y-1 members differing from it as a pair, "
+                "and never panics (de_current_to_best_err_iff_pairs); at least 2y pairwise different pairs are a usable input however many share a "
+                "solution (de_current_to_best_shared_solutions_ok). O judges membership, counts, distinctness and the documented errors on pairs "
+                "(copies compared by tag and objective bits; identical members form one group: IWO copies per member = group copies / group size, SUS "
+                "pressure bound on group totals). States holding other best / memory states (model SelState: stack + BestIndividual + ElitistArchive + "
+                "PSO bests): `execute` is `select` on the source population, every pushed individual is a source member "
+                "(execute_is_select_on_source), two States with the same stack give the same result (execute_depends_on_source_only), the other "
+                "states are left alone (execute_keeps_other_states); O/K run the real `execute` on such States, so an individual taken from a cache "
+                "instead of the population is reported (`not-member` / `wrong-value`) with the failing input."),
+    level_note=("That `execute` reads nothing but the population stack and the generator is how the model is WRITTEN (SelState/execute); the three "
+                "execute_* theorems are consequences of that shape, their tie to /repo is the differential run on States with foreign best / archive / PSO "
+                "contents (stream 11) — other custom states a component might consult are not generated. The harness does not report the other states "
+                "after the call (the property does not speak about them). "
+                "Trusted: Lean kernel; contracts of rand's sampling primitives; list semantics of iterator adaptors; harness + "
                 "driver parsing/printing. partial: the distributions of the samplers (only the 5-sigma ordering test looks at "
                 "frequencies), floating-point rounding/overflow in the weight arithmetic (theorems are exact arithmetic; the "
                 "Float model is compared with the code on the generated cases only), WeightedIndex internals; ExponentialRank on +inf / huge "
